@@ -496,6 +496,22 @@ impl Check for C10 {
             }
         };
         rec.nontrivial(&witness_input);
+        // "its own transaction date" is the date written in the header (not the effective date after `=`)
+        let written: Vec<NaiveDate> = ledger.txns().map(|(_, t)| t.date).collect();
+        let stored: Vec<NaiveDate> = txns.iter().map(|(d, _)| *d).collect();
+        if written != stored {
+            rec.violation(
+                "transaction-date-differs",
+                "stored",
+                "the dates of the stored transactions differ from the transaction dates written in the ledger",
+                json!({"ledger": rendered.text, "written": written.iter().map(|d| d.to_string()).collect::<Vec<_>>(), "stored": stored.iter().map(|d| d.to_string()).collect::<Vec<_>>()}),
+            );
+            let _ = std::fs::remove_dir_all(&dir);
+            return;
+        }
+        if ledger.txns().any(|(_, t)| t.effective.is_some()) {
+            rec.count("ledgers-with-effective-dates");
+        }
         let _ = to_multi;
         let _ = multi_to_string;
         let wit = |extra: serde_json::Value| json!({"ledger": rendered.text, "price_db": price_db, "detail": extra});
